@@ -959,6 +959,8 @@ type audRun struct {
 	faulty  bool
 	written int // entries appended to the file so far (all incarnations)
 	failed  []audFailedWrite
+	// curCall: the audited call each task goroutine is executing right now (by goroutine id)
+	curCall map[int64]*audCall
 
 	genesisWriteFailed   bool
 	groundingWriteFailed bool
@@ -1025,6 +1027,18 @@ func (s *audSink) WriteEntry(e *auditlog.Entry) error {
 			fw := audFailedWrite{kind: kind}
 			if d, ok := e.Details.(*auditlog.LogDetails); ok {
 				fw.reqID, fw.phase = d.Request.RequestID, string(d.Phase)
+			}
+			if fw.reqID == "" {
+				// a genesis or grounding entry that has to be in the log before the entry of the
+				// call in progress can be chained: when its write fails, that entry cannot be
+				// written either (the middleware retries the prerequisite with the next entry)
+				if c := r.curCall[sim.CurGoid()]; c != nil {
+					fw.reqID, fw.phase = c.reqID, string(auditlog.PhaseStart)
+					if c.innerCalls > 0 {
+						fw.phase = string(auditlog.PhaseComplete)
+					}
+					r.rc.Stats.Inc("probe.c26.entry_lost_with_failed_prerequisite_write")
+				}
 			}
 			r.failed = append(r.failed, fw)
 			switch e.Type {
@@ -1178,7 +1192,12 @@ func (r *audRun) runIncarnation(p audIncPlan, w *world.World) error {
 					c.traceID = fmt.Sprintf("%016x%016x", uint64(inc)<<32|uint64(ti+1), uint64(i+1))
 				}
 				r.calls = append(r.calls, c)
+				if r.curCall == nil {
+					r.curCall = map[int64]*audCall{}
+				}
+				r.curCall[sim.CurGoid()] = c
 				created, err := spec.call(c.ctx(), mw, &c.args)
+				delete(r.curCall, sim.CurGoid())
 				c.err, c.createdUp, c.returned = err, created, true
 				if created != "" {
 					lastUp = created
@@ -1868,9 +1887,9 @@ func audGenEntriesAPI(g *sim.Tape, keys *audKeySet, n int, badUTF8 bool) []*audi
 		pool = append(append([]string{}, pool...), audBadUTF8)
 	}
 	pick := func() string { return pool[g.Int(len(pool))] }
-	version := uint16(3)
+	version := auditlog.CurrentVersion
 	if g.Chance(1, 4) {
-		version = uint16(1 + g.Int(3))
+		version = uint16(1 + g.Int(int(auditlog.CurrentVersion)))
 	}
 	ts := time.Date(2024, time.Month(1+g.Int(12)), 1+g.Int(28), g.Int(24), g.Int(60), g.Int(60), 0, time.UTC)
 	pithos := sha512.Sum512([]byte("pithos"))
@@ -1880,7 +1899,7 @@ func audGenEntriesAPI(g *sim.Tape, keys *audKeySet, n int, badUTF8 bool) []*audi
 	out = append(out, gen)
 	ops := []auditlog.Operation{auditlog.OpPutObject, auditlog.OpCopyObject, auditlog.OpUploadPartCopy, auditlog.OpDeleteObject, auditlog.OpCreateBucket, auditlog.OpListBuckets, auditlog.OpUploadPart, auditlog.OpGetObject}
 	for i := 0; i < n; i++ {
-		if version < 3 && g.Chance(1, 4) {
+		if version < auditlog.CurrentVersion && g.Chance(1, 4) {
 			version++
 		}
 		switch g.Int(3) {
@@ -2149,9 +2168,9 @@ func audFieldMuts() []audFieldMut {
 	_ = str
 	return []audFieldMut{
 		{name: "version", apply: func(e *auditlog.Entry, g *sim.Tape) bool {
-			nv := uint16(1 + g.Int(4))
+			nv := uint16(1 + g.Int(int(auditlog.CurrentVersion)+1))
 			if nv == e.Version {
-				nv = e.Version%4 + 1
+				nv = e.Version%(auditlog.CurrentVersion+1) + 1
 			}
 			e.Version = nv
 			return true
@@ -2343,6 +2362,11 @@ func (t *audTamper) try(m audMut, full bool) {
 	key := "undetected:" + m.kind
 	if m.field != "" {
 		key += ":" + m.field
+	}
+	if strings.Contains(m.field, "source_") && len(m.tail) > 0 && m.tail[0].Version == 3 {
+		// format v3 stored the copy-source fields outside the entry hash; v4 covers them.
+		// Existing v3 entries cannot be protected after the fact.
+		key += ":legacy-v3"
 	}
 	if _, ok := t.missed[key]; !ok {
 		t.missed[key] = m.desc
@@ -2652,6 +2676,9 @@ func (t *audTamper) flipBytes(positions []int, perEntry int) {
 				}
 			}
 			key := "undetected:change:" + field
+			if strings.Contains(field, "source_") && l.entries[i].Version == 3 {
+				key += ":legacy-v3"
+			}
 			if _, ok := t.missed[key]; !ok {
 				t.missed[key] = fmt.Sprintf("%s log, entry %d/%d (%s): bit flipped in stored byte %d (field %s)", l.f.name, i, l.n(), audEntryBrief(l.entries[i]), p, field)
 			}
@@ -2865,7 +2892,7 @@ func runC27(rc *RunCtx) (*Violation, error) {
 func init() {
 	Register(&Scenario{
 		Prop: "C27", Name: "tamper-enumeration", Level: "fault_enumeration",
-		Rule: "a signed log is generated (entry API: genesis + 2-15 log entries of format versions 1-3 with every string field drawn from a pool of hostile values; or the real middleware over the stub storage: 4-15 calls, or 500-505 calls so that the log holds a signed grounding) and stored in binary and in JSON; for every entry (logs over 64 entries: the entries around each grounding, the first and last three and 10 drawn ones) x every field recorded at that entry's version (version, timestamp, type, operation, phase, bucket, key, upload id, part number, copy source bucket/key, credential, auth type, request/trace id, client IP, status, outcome, error code, error, duration, merkle root and its two signatures, previous hash, hash, signature) a changed value is written with the real serializer (as is, with the hash recomputed, and with hashes and links recomputed down the whole chain), one character is moved across each pair of adjacent string fields, the entry is deleted (never a pure suffix cut), duplicated, swapped/moved, a correctly linked forged entry (stale signature or another key) is inserted, and three single-bit flips hit the stored binary form; the patched file is decoded with the real decoder and verified by the real Validator with both public keys (resumed from the Validator state in front of the first touched entry; a sample is re-verified from the first entry) and must fail; every generated entry goes through the binary, JSON, indented JSON and text serializers and must come back field by field; non-trivial = at least 100 tamperings tried",
+		Rule: "a signed log is generated (entry API: genesis + 2-15 log entries of format versions 1 to current with every string field drawn from a pool of hostile values; or the real middleware over the stub storage: 4-15 calls, or 500-505 calls so that the log holds a signed grounding) and stored in binary and in JSON; for every entry (logs over 64 entries: the entries around each grounding, the first and last three and 10 drawn ones) x every field recorded at that entry's version (version, timestamp, type, operation, phase, bucket, key, upload id, part number, copy source bucket/key, credential, auth type, request/trace id, client IP, status, outcome, error code, error, duration, merkle root and its two signatures, previous hash, hash, signature) a changed value is written with the real serializer (as is, with the hash recomputed, and with hashes and links recomputed down the whole chain), one character is moved across each pair of adjacent string fields, the entry is deleted (never a pure suffix cut), duplicated, swapped/moved, a correctly linked forged entry (stale signature or another key) is inserted, and three single-bit flips hit the stored binary form; the patched file is decoded with the real decoder and verified by the real Validator with both public keys (resumed from the Validator state in front of the first touched entry; a sample is re-verified from the first entry) and must fail; every generated entry goes through the binary, JSON, indented JSON and text serializers and must come back field by field; non-trivial = at least 100 tamperings tried",
 		Real: []string{"internal/auditlog (Entry.CalculateHash/Sign/Verify, Validator, CalculateMerkleRoot)", "internal/auditlog/serialization (binary, JSON, text encoders/decoders)", "internal/auditlog/signing (Ed25519, ML-DSA-87)", "internal/storage/middlewares/audit (log generation in modes 2/3)"},
 		Stub: []string{"modes 2/3: in-memory stub storage below the middleware, in-memory sink"},
 		Run:  runC27,
